@@ -175,17 +175,28 @@ Ambiguous(u, form, k) ==
 (* ---- registry-level settings (D9) -------------------------------------- *)
 RegKeys == {"context_behavior", "tag_formatter"}
 \* own = RegistrySettings.<k>, old = RegistrySettings.<K upper-case, deprecated>; Absent = omitted
+\* `registry.settings` is read as a whole: where the global context_behavior is invalid and the
+\* registry has none of its own, the docs do not say whether reading the other field fails too.
 RegAdm(u, form, base, k, own, old) ==
   LET mine == {own, old} \ {Absent}
-      global == Adm(u, form, base, k) IN
-  IF mine = {} THEN global
-  ELSE mine \cup {e \in global : e.t = "error"}
+      global == Adm(u, form, base, k)
+      errors == {e \in global \cup Adm(u, form, base, "context_behavior") : e.t = "error"} IN
+  IF mine = {} THEN global \cup errors
+  ELSE mine \cup errors
 
 (* ---- downstream effects of a start-up under (u, form) ------------------ *)
 \* D10: the names under which the dynamic component is registered
 DynamicNames(u, form, base) == Adm(u, form, base, "dynamic_component_name")
 \* D11: TRUE -> "{{ x <newline> }}" is a variable tag; FALSE -> django.template.base.tag_re is left alone
 Multiline(u, form, base) == Adm(u, form, base, "multiline_tags")
+\* "Toggle whether to run autodiscovery at the Django server startup."
+Autodiscovers(u, form, base) == Adm(u, form, base, "autodiscover")
+\* reload_on_file_change: "If `True`, django_components configures Django to reload when files inside
+\* COMPONENTS.dirs or COMPONENTS.app_dirs change."  (a receiver of django.utils.autoreload.file_changed)
+WatchesFiles(u, form, base) == Adm(u, form, base, "reload_on_file_change")
+\* libraries: "Configure extra python modules that should be loaded. [...] This would be the equivalent of
+\* importing these modules from within Django's AppConfig.ready()"
+LibrariesLoaded(u, form, base) == Adm(u, form, base, "libraries")
 \* D12: number of templates held after n distinct templates were compiled through the cache
 CachedAfterOne(n, bound) == IF bound.t = "unbounded" THEN n
                             ELSE IF bound.i < n THEN (IF bound.i < 0 THEN 0 ELSE bound.i) ELSE n
@@ -223,6 +234,8 @@ Reform(f)  == /\ f # form /\ WellFormed(user, f)
               /\ form' = f /\ ret' = {} /\ UNCHANGED <<user, base>>
 Drop       == /\ user' = Empty /\ form' = "none" /\ ret' = {} /\ UNCHANGED base
 SetBase(b) == /\ b # base /\ base' = b /\ ret' = {} /\ UNCHANGED <<user, form>>
+\* COMPONENTS replaced as a whole (e.g. leaving an override_settings block restores an earlier value)
+Load(u, f) == /\ WellFormed(u, f) /\ user' = u /\ form' = f /\ ret' = {} /\ UNCHANGED base
 Read(k)    == /\ ret' = Adm(user, form, base, k) /\ UNCHANGED <<user, form, base>>
 RegRead(k, own, old) ==
               /\ ret' = RegAdm(user, form, base, k, own, old) /\ UNCHANGED <<user, form, base>>
